@@ -174,10 +174,25 @@ structure Site where
 /-- THE obligation of a site: its expression has the shift weight its use demands. -/
 def Site.ok (s : Site) : Bool := wt s.tmask s.expr == some s.role.weight
 
-/-- shape `time variable + (something without time variables)`: one rounding separates the
-    shifted from the unshifted value (used for the binary64 residue bound). -/
+/-- times occur only inside differences of two times -/
+def diffOnly (m : List Bool) : TExpr → Bool
+  | .sub (.var i) (.var j) =>
+      (m.getD i false && m.getD j false) || (!(m.getD i false) && !(m.getD j false))
+  | .var i => !(m.getD i false)
+  | .ofI _ => true
+  | .lit _ => true
+  | .add a b => diffOnly m a && diffOnly m b
+  | .sub a b => diffOnly m a && diffOnly m b
+  | .mul a b => diffOnly m a && diffOnly m b
+  | .div a b => diffOnly m a && diffOnly m b
+  | .neg a => diffOnly m a
+  | .round a => diffOnly m a
+  | .trunc a => diffOnly m a
+
+/-- shape `time variable + (something in which times occur at most as differences)`: one
+    rounding separates the shifted from the unshifted value (binary64 residue bound). -/
 def timePlusInv (m : List Bool) : TExpr → Bool
-  | .add (.var i) b => m.getD i false && noTime m b
+  | .add (.var i) b => m.getD i false && diffOnly m b
   | _ => false
 
 def Site.tpi (s : Site) : Bool := timePlusInv s.tmask s.expr
